@@ -13,5 +13,6 @@ else
 fi
 export GOFLAGS=-mod=mod GOPROXY=off GOSUMDB=off GOTOOLCHAIN=local PATH=/opt/veriftools/go1.26.8/bin:$PATH
 unset GOWORK
+mkdir -p "$D/.verif-out"; cp /verif/known_findings.jsonl "$D/.verif-out/"
 /verif/bin/pcheck -prop "$PROP" -tier "$TIER" -repo "$D" -no-evidence -verif "$D/.verif-out" | sed "s#$D/##g" | grep -v '^   rule\|^== \|^   analysed'
 echo "exit=${PIPESTATUS[0]}"
